@@ -516,11 +516,37 @@ pub fn run_write(case: &PipeCase, record_data: bool) -> WriteOutcome {
 
 /// Runs a subprocess of the code under test with a deadline (a tool that never finishes must not outlive the
 /// worker as an orphan): Err(TimedOut) after `secs`, the child is killed.
-pub fn output_with_deadline(mut cmd: std::process::Command, secs: u64) -> std::io::Result<std::process::Output> {
-    use std::io::Read;
+pub fn output_with_deadline(cmd: std::process::Command, secs: u64) -> std::io::Result<std::process::Output> {
+    output_with_deadline_fed(cmd, secs, None)
+}
+
+/// As `output_with_deadline`; with `feed = (bytes, split, pause_ms)` the child's standard input is a pipe that gets
+/// `bytes[..split]`, then nothing for `pause_ms`, then the rest (a slow upstream producer: legal short reads on the
+/// reading side; the outcome of correct code cannot depend on the pause).
+pub fn output_with_deadline_fed(
+    mut cmd: std::process::Command,
+    secs: u64,
+    feed: Option<(Vec<u8>, usize, u64)>,
+) -> std::io::Result<std::process::Output> {
+    use std::io::{Read, Write};
     use std::process::Stdio;
     cmd.stdout(Stdio::piped()).stderr(Stdio::piped());
+    if feed.is_some() {
+        cmd.stdin(Stdio::piped());
+    }
     let mut child = cmd.spawn()?;
+    if let Some((bytes, split, pause_ms)) = feed {
+        if let Some(mut si) = child.stdin.take() {
+            std::thread::spawn(move || {
+                let split = split.min(bytes.len());
+                let _ = si.write_all(&bytes[..split]);
+                let _ = si.flush();
+                std::thread::sleep(std::time::Duration::from_millis(pause_ms));
+                let _ = si.write_all(&bytes[split..]);
+                // dropping `si` closes the pipe
+            });
+        }
+    }
     let mut so = child.stdout.take();
     let mut se = child.stderr.take();
     let t_out = std::thread::spawn(move || {
